@@ -2,6 +2,7 @@ import AvroModel.Container
 import AvroModel.Lemmas.WriteOk
 import AvroModel.Props.C09
 import AvroModel.Lemmas.DecodeOk
+import AvroModel.Lemmas.SpecHeader
 /-!
 # C02 — Files written are valid Avro that an independent reader decodes identically
 
@@ -157,5 +158,71 @@ example : (Spec.readBlocks exCfg2.sync 4 ((encRun exCfg2 {} exOps2).2.1.accepted
 
 example : ∀ blk ∈ (specPart exCfg2.blockSize exOps2 []).1,
     inRange 64 (blk.length : Int) ∧ inRange 64 ((exCfg2.compress blk.flatten).length : Int) := by decide +kernel
+
+/-! ### The header, as seen by the specification's reader
+
+`File.mkHeader` (Lemmas/File.lean) is the writer model of the header: magic, the metadata map in blocks,
+the terminating zero count, the sync marker; the library writes a single block with the entries
+`avro.schema` and `avro.codec` (filewriter.go `WriteHeader`). `Avro.Spec.readHeader` is the
+specification-side reader. -/
+
+/-- **The specification's reader reads the writer's header**: a header with a single metadata block
+`es` of at least one entry, keys and values of representable length, and a 16-byte sync marker is read
+back as exactly those entries (in order) and that marker, and exactly what follows the header is left. -/
+theorem spec_reader_reads_header (es : List (Bytes × Bytes)) (sync rest : Bytes) (hne : es ≠ [])
+    (hlen : es.length ≤ File.maxLen) (hsm : ∀ kv ∈ es, File.SmallEntry kv) (hs : sync.length = 16) :
+    Spec.readHeader (File.mkHeader [es] sync ++ rest) = some ({ metadata := es, sync := sync }, rest) :=
+  SpecHeader.readHeader_mkHeader es sync rest hne hlen hsm hs
+
+/-- **C02, whole file.** With the header the library writes — `mkHeader` of the one metadata block
+`avro.schema = js`, `avro.codec = name` and the writer's sync marker — the specification-side reader
+reads the *whole* output of any `Encode`/`Flush` history as: that metadata (so that looking up
+`avro.schema` / `avro.codec` yields `js` / `name`), that sync marker, and then the blocks of the
+reference partition with exact record counts and exact payload sizes, every block followed by the
+header's marker, and no byte left over (`Spec.readBlocks` returns `some` only when it consumed
+everything). -/
+theorem file_valid (cfg : EncCfg) (js name : Bytes)
+    (hhdr : cfg.header = File.mkHeader [[(File.kSchema, js), (File.kCodec, name)]] cfg.sync)
+    (hs : cfg.sync.length = 16) (hjs : js.length ≤ File.maxLen) (hname : name.length ≤ File.maxLen)
+    (ops : List EncOp)
+    (hsz : ∀ blk ∈ (specPart cfg.blockSize ops []).1, inRange 64 (blk.length : Int) ∧ inRange 64 ((cfg.compress blk.flatten).length : Int)) :
+    ∃ s' w' hdr body, encRun cfg {} ops = (s', w', none) ∧
+      Spec.readHeader w'.accepted = some (hdr, body) ∧
+      hdr.metadata = [(File.kSchema, js), (File.kCodec, name)] ∧ hdr.sync = cfg.sync ∧
+      hdr.lookup File.kSchema = some js ∧ hdr.lookup File.kCodec = some name ∧
+      Spec.readBlocks hdr.sync ((specPart cfg.blockSize ops []).1.length + 1) body =
+        some ((specPart cfg.blockSize ops []).1.map fun blk => { count := (blk.length : Int), payload := cfg.compress blk.flatten }) := by
+  obtain ⟨s', w', body, hrun, hacc, hblocks⟩ := container_valid cfg hs ops hsz
+  refine ⟨s', w', { metadata := [(File.kSchema, js), (File.kCodec, name)], sync := cfg.sync }, body, hrun, ?_, rfl, rfl, ?_, ?_, hblocks⟩
+  · rw [hacc, hhdr]
+    apply spec_reader_reads_header _ _ _ (by simp) (by show 2 ≤ File.maxLen; decide) _ hs
+    intro kv hkv
+    simp only [List.mem_cons, List.not_mem_nil, or_false] at hkv
+    rcases hkv with rfl | rfl
+    · exact ⟨(by show File.kSchema.length ≤ File.maxLen; decide), hjs⟩
+    · exact ⟨(by show File.kCodec.length ≤ File.maxLen; decide), hname⟩
+  · have h1 : (File.kCodec == File.kSchema) = false := by decide
+    simp [Spec.Header.lookup, h1]
+  · simp [Spec.Header.lookup]
+
+/-- non-vacuity: the history of `exOps2` behind a real header (schema `"`, codec null) -/
+def exCfg3 : EncCfg :=
+  { blockSize := 2, compress := id, sync := List.replicate 16 0xAA,
+    header := File.mkHeader [[(File.kSchema, [0x22]), (File.kCodec, File.vNull)]] (List.replicate 16 0xAA) }
+
+/-- the hypotheses of `file_valid` hold for it … -/
+example : ∃ s' w' hdr body, encRun exCfg3 {} exOps2 = (s', w', none) ∧
+      Spec.readHeader w'.accepted = some (hdr, body) ∧
+      hdr.metadata = [(File.kSchema, [0x22]), (File.kCodec, File.vNull)] ∧ hdr.sync = exCfg3.sync ∧
+      hdr.lookup File.kSchema = some [0x22] ∧ hdr.lookup File.kCodec = some File.vNull ∧
+      Spec.readBlocks hdr.sync ((specPart exCfg3.blockSize exOps2 []).1.length + 1) body =
+        some ((specPart exCfg3.blockSize exOps2 []).1.map fun blk => { count := (blk.length : Int), payload := exCfg3.compress blk.flatten }) :=
+  file_valid exCfg3 [0x22] File.vNull rfl (by decide) (by decide) (by decide) exOps2 (by decide +kernel)
+
+/-- … and its conclusion, evaluated: the specification's reader on the whole output of the encoder model -/
+example : (Spec.readHeader (encRun exCfg3 {} exOps2).2.1.accepted).map (fun hb => (hb.1.metadata, hb.1.sync, hb.2.length)) =
+      some ([(File.kSchema, [0x22]), (File.kCodec, File.vNull)], List.replicate 16 0xAA, 41) ∧
+    ((Spec.readHeader (encRun exCfg3 {} exOps2).2.1.accepted).bind fun hb => Spec.readBlocks hb.1.sync 4 hb.2).map
+      (fun bl => bl.map fun b => (b.count, b.payload)) = some [(2, [1, 2]), (1, [3, 4, 5])] := by decide +kernel
 
 end Avro.C02
